@@ -973,6 +973,55 @@ func vC14GenericProvider(t *testing.T, out *vEmitter) {
 				map[string]interface{}{"flow": flow, "position": pos, "kind": k})
 		}
 	}
+	// what an endpoint answered, in the model's terms: (whole response received, status) and, for the token endpoint,
+	// how the library reads the body (encoding/json into a string field, else net/url as a form: library oracles)
+	replySX := func(k kind, ok string) (vsx, vsx, string) {
+		st, _, body, err := k.f(ok)
+		transport := err == nil
+		if _, isBF := err.(vBodyFault); isBF {
+			st = 200
+		}
+		return vBool(transport), vI(int64(st)), body
+	}
+	bodySX := func(body string) vsx {
+		var js struct {
+			AccessToken string `json:"access_token"`
+		}
+		if json.Unmarshal([]byte(body), &js) == nil {
+			if js.AccessToken == "" {
+				return vL(vY("json"), vNone)
+			}
+			return vL(vY("json"), vSome(vS(js.AccessToken)))
+		}
+		vals, err := url.ParseQuery(body)
+		if err != nil {
+			return vY("unparsable")
+		}
+		if a := vals.Get("access_token"); a != "" {
+			return vL(vY("form"), vSome(vS(a)))
+		}
+		return vL(vY("form"), vNone)
+	}
+	emailSX := func(body string) vsx {
+		var js struct {
+			Account struct {
+				Email string `json:"email"`
+			} `json:"account"`
+		}
+		if json.Unmarshal([]byte(body), &js) == nil && js.Account.Email != "" {
+			return vSome(vS(js.Account.Email))
+		}
+		// simplejson's GetPath(...).String() fails on anything that is not a string
+		var generic map[string]interface{}
+		if json.Unmarshal([]byte(body), &generic) == nil {
+			if acc, ok := generic["account"].(map[string]interface{}); ok {
+				if em, ok := acc["email"].(string); ok {
+					return vSome(vS(em))
+				}
+			}
+		}
+		return vNone
+	}
 	setAccount := func(k kind) {
 		e.idp.onPath["/do/account"] = func(*http.Request) (int, string, string, error) { return k.f(okAccount) }
 	}
@@ -988,6 +1037,12 @@ func vC14GenericProvider(t *testing.T, out *vEmitter) {
 			cb := b.callback(l.State, "code")
 			issued := e.sessionCookieSet(cb)
 			record("generic-login", "token-"+enc, k.label, cb, issued)
+			{
+				tt, ts, tbody := replySX(k, okTok)
+				pt, ps, pbody := replySX(kinds[0], okAccount)
+				out.Case("generic-login/token-"+enc, true, vBool(issued),
+					vL("generic_login", vS("code"), tt, ts, bodySX(tbody), pt, ps, emailSX(pbody)))
+			}
 			// (a prefix of a form-encoded body is itself a well-formed form body: a complete response carrying one is not detectable)
 			undetectable := enc == "form" && k.label == "truncated-json"
 			if issued != (k.label == "ok") && !undetectable {
@@ -1004,6 +1059,12 @@ func vC14GenericProvider(t *testing.T, out *vEmitter) {
 		cb := b.callback(l.State, "code")
 		issued := e.sessionCookieSet(cb)
 		record("generic-login", "profile", k.label, cb, issued)
+		{
+			tt, ts, tbody := replySX(kinds[0], tokenBodies["json"])
+			pt, ps, pbody := replySX(k, okAccount)
+			out.Case("generic-login/profile", true, vBool(issued),
+				vL("generic_login", vS("code"), tt, ts, bodySX(tbody), pt, ps, emailSX(pbody)))
+		}
 		if issued != (k.label == "ok") {
 			out.Violation("idp-fault/session-from-failed-profile-lookup", "a session was created although the profile lookup it depends on failed",
 				map[string]interface{}{"kind": k.label, "provider": "generic", "issued": issued})
@@ -1018,6 +1079,10 @@ func vC14GenericProvider(t *testing.T, out *vEmitter) {
 		vReseed(b, s)
 		r := b.get("/page")
 		record("generic-validate", "validate", k.label, r, false)
+		{
+			vt, vs, _ := replySX(k, okAccount)
+			out.Case("generic-validate", true, vBool(r.Hit()), vL("generic_validate", vS(s.AccessToken), vt, vs))
+		}
 		// the validation endpoint's verdict is its status: 200 with the whole body received
 		if r.Hit() != k.good {
 			out.Violation("idp-fault/session-extended-after-failed-validation", "a stale session was honoured although its validation at the identity provider failed (or refused although it succeeded)",
